@@ -60,6 +60,20 @@ def c07_runs(tier):
 
 
 PROPS = {
+    "C19": {
+        "engine": "exhaustive enumeration + rapidcheck",
+        "technique": "reference-model comparison: independent prefix reader of the numeric/channel list syntax over all short expression bodies, generator-structure oracle for rapidcheck grammar-generated and mutated lists",
+        "level": "all expression bodies up to 6 (quick) / 7 (thorough) characters over {1 2 - . : , ! @ space x} queried at entries 0..4 with "
+                 "capacities 0..4, plus grammar-generated lists of up to 8 entries / 5 dimensions and mutations of them queried at entries 0..9 "
+                 "with capacities 0..5 (exact-size value arrays under ASan)",
+        "level_note": "for ill-formed numeric lists only 'not OK' is asserted (the statement does not choose between NO_MORE and ERROR); "
+                      "channel lists are compared three-valued; integer values are compared when the written token is an integer literal",
+        "design_ref": "DESIGN.md section 4, C19",
+        "runs": simple("c19"),
+        "rule": "evaluations = entry queries; enumerated bodies distinct by construction, generated lists by hash; non-trivial = a body with >= 2 "
+                "entries reported OK or an OK entry with a range / >= 2 dimensions (enumeration); generated list with >= 2 entries containing a range or >= 2 dimensions",
+        "assumptions": COMMON_ASSUME + ["lists reach the expression API through SCPI_Parameter on the maintainers' lex_state shortcut"],
+    },
     "C17": {
         "engine": "enumeration + rapidcheck",
         "technique": "reference-model comparison: independent definite-length block encoder (shift-based byte order) and an accounting model for streamed blocks, over an enumerated grid and rapidcheck-generated result sequences",
